@@ -63,11 +63,11 @@ Fixpoint insert_link (e : entry) (l : list entry) : list entry :=
 Definition sort_links (l : list entry) : list entry :=
   fold_left (fun acc e => insert_link e acc) l [].
 
-Definition two62 : Z := 4611686018427387904.
-Arguments two62 : simpl never.
+Definition max_len : Z := 2305843009213693952.  (* 2^61: generous bound on byte-string lengths that keeps all Go int sums below 2^63 *)
+Arguments max_len : simpl never.
 
 Definition wf_entry (e : entry) : Prop :=
-  blen (e_cid e) < two62 /\ blen (e_name e) < two62 /\ 0 <= e_tsize e < two64.
+  blen (e_cid e) < max_len /\ blen (e_name e) < max_len /\ 0 <= e_tsize e < two64.
 
 (* ------------------------------------------------------------------ *)
 
@@ -79,7 +79,7 @@ Proof.
   intros e (Hc & Hn & Ht). pose proof (wire_tsize_range _ Ht).
   unfold link_fields.
   constructor; [|constructor; [|constructor; [|constructor]]];
-    (split; cbn [fst snd wf_val]; [unfold max_fnum; lia|unfold two62, two63, two64 in *; lia]).
+    (split; cbn [fst snd wf_val]; [unfold max_fnum; lia|unfold max_len, two63, two64 in *; lia]).
 Qed.
 
 Lemma link_fields_size : forall e, fields_size (link_fields e) = link_inner_size e.
@@ -94,10 +94,10 @@ Proof.
   intros e (Hc & Hn & Ht). unfold link_inner_size.
   pose proof (blen_nonneg (e_cid e)). pose proof (blen_nonneg (e_name e)).
   pose proof (wire_tsize_range _ Ht).
-  assert (1 <= vlen (blen (e_cid e)) <= 10) by (apply vlen_u64; unfold two62, two63, two64 in *; lia).
-  assert (1 <= vlen (blen (e_name e)) <= 10) by (apply vlen_u64; unfold two62, two63, two64 in *; lia).
-  assert (1 <= vlen (wire_tsize (e_tsize e)) <= 10) by (apply vlen_u64; unfold two62, two63, two64 in *; lia).
-  unfold two62, two63, two64 in *. lia.
+  assert (1 <= vlen (blen (e_cid e)) <= 10) by (apply vlen_u64; unfold max_len, two63, two64 in *; lia).
+  assert (1 <= vlen (blen (e_name e)) <= 10) by (apply vlen_u64; unfold max_len, two63, two64 in *; lia).
+  assert (1 <= vlen (wire_tsize (e_tsize e)) <= 10) by (apply vlen_u64; unfold max_len, two63, two64 in *; lia).
+  unfold max_len, two63, two64 in *. lia.
 Qed.
 
 Lemma wf_link_entry : forall e, wf_entry e -> wf_field (link_entry e).
